@@ -395,6 +395,14 @@ func intrinsicTable0() map[string]func(ex *Exec, f *Frame, call *ssa.Call, args 
 		"verifBytesEq": func(ex *Exec, f *Frame, call *ssa.Call, args []Value, reach *Term) (Value, *Term) {
 			return ex.contentEq(args[0].(SliceV), args[1].(SliceV)), reach
 		},
+		"verifSameSlice": func(ex *Exec, f *Frame, call *ssa.Call, args []Value, reach *Term) (Value, *Term) {
+			a, b := args[0].(SliceV), args[1].(SliceV)
+			return And(Eq(a.Len, b.Len), Or(Eq(a.Len, Int(0)), And(Eq(a.Arr, b.Arr), Eq(a.Off, b.Off)))), reach
+		},
+		"verifSamePayloads": func(ex *Exec, f *Frame, call *ssa.Call, args []Value, reach *Term) (Value, *Term) {
+			a, b := args[0].(SliceV), args[1].(SliceV)
+			return And(Eq(a.Len, b.Len), Or(Eq(a.Len, Int(0)), And(Eq(a.Arr, b.Arr), Eq(a.Off, b.Off)))), reach
+		},
 		"verifFresh": func(ex *Exec, f *Frame, call *ssa.Call, args []Value, reach *Term) (Value, *Term) {
 			// true iff the slice is empty or its array was allocated during this execution
 			s := args[0].(SliceV)
